@@ -210,8 +210,12 @@ def gen_case(rng, i, tier):
     steps = []
     nb = rng.choice([1, 2, 2, 3, 4])
     prev = []
+    null_at = rng.randrange(nb) if nb >= 2 and rng.random() < 0.06 else None
     for k in range(nb):
         d = base_doc(rng, k)
+        if k == null_at:
+            d = None            # an empty document in the base stream is a document like any other (it is a merge target, it keeps its place)
+            labels.add('base:null-document')
         pid = 'b%d' % k
         steps.append({'id': pid, 'parents': [], 'data': d})
         st.apply(pid, [], d, model.Notes(null_policy='keep'))
@@ -228,14 +232,14 @@ def gen_case(rng, i, tier):
             st.links[pid] = list(parents)
             anc = st.closure(pid)
             cands = [d for d in st.docs if d[0] in anc] or st.docs
-            tgt = rng.choice(cands)
+            tgt = rng.choice([c for c in cands if isinstance(c[1], dict)] or [['-', {'name': 'n0', 'kind': 'a'}]])
             r = rng.random()
             if r < 0.45 or len(cands) == 1:
                 body = gen.child_of(rng, tgt[1], labels, 0, rng.choice([0.0, 0.0, 0.1]))
             else:
                 # something every target accepts: fresh keys / appended entries, with the constructs that expose sharing
                 body = {}
-                allkeys = set(k for d in cands for k in d[1].keys())
+                allkeys = set(k for d in cands if isinstance(d[1], dict) for k in d[1].keys())
                 for key in [k for k in gen.KEYS + ['f', 'g'] if k not in allkeys][:rng.randint(1, 2)]:
                     body[key] = rng.choice([{'x': 1}, {'x': {'y': 1}}, [{'p': 1}], [1, 2], 'v', {'$replace': True, 'z': 1}])
                 labels.add('edit:fresh-for-all')
@@ -435,6 +439,7 @@ def check_case(ctx, case):
             if o['err'] is not None:
                 return res.violate('isolate', 'stream output failed: %s' % o['err'], steps=steps)
             got = [json.loads(l) for l in out_bytes(o).decode().splitlines() if l.strip()]
+            exp = [x for x in exp if x is not None]         # a document that is (still) empty produces no output document
             if not veq(got, exp, loose=True):
                 return res.violate('isolate', 'stream output differs from the per-document results', steps=steps, expect=exp, got=got)
             res.ev('stream_outputs_agreed')
